@@ -91,9 +91,17 @@ class Expander:
         self.n += 1
         return f"tmp{self.n}_"
 
-    def expand(self, stmts, consts=None, code=None, depth=0):
+    @staticmethod
+    def _subst(text, exprs):
+        """Replace parameter names by the (parenthesised) argument text they are bound to."""
+        if not exprs:
+            return text
+        return re.sub(r"[A-Za-z_][A-Za-z_0-9.]*", lambda m: exprs.get(m.group(0), m.group(0)), text)
+
+    def expand(self, stmts, consts=None, code=None, depth=0, exprs=None):
         consts = dict(consts or {})
         code = dict(code or {})
+        exprs = dict(exprs or {})
         if depth > self.max_depth:
             raise Undecidable("expansion too deep")
         out = []
@@ -105,8 +113,10 @@ class Expander:
                 if m:
                     try:
                         consts[m.group(1)] = _const_eval(m.group(2), consts)
+                        exprs.pop(m.group(1), None)
                     except Undecidable:
                         consts.pop(m.group(1), None)
+                        exprs[m.group(1)] = "(" + self._subst(m.group(2), exprs) + ")"
             elif k == "macrodef":
                 self.macros[st[1]] = (st[2], st[3])
             elif k == "call":
@@ -117,6 +127,7 @@ class Expander:
                     raise IndexError("missing macro argument")
                 inner_consts = dict(consts)
                 inner_code = dict(code)
+                inner_exprs = dict(exprs)
                 pre, binds = [], []
                 for p, a in zip(params, st[2]):
                     if a[0] == "expr":
@@ -128,11 +139,13 @@ class Expander:
                         except Undecidable:
                             inner_consts.pop(p, None)
                         inner_code.pop(p, None)
+                        inner_exprs[p] = "(" + self._subst(a[1], exprs) + ")"
                     else:
-                        inner_code[p] = self.expand(a[1], consts, code, depth + 1)
+                        inner_code[p] = self.expand(a[1], consts, code, depth + 1, exprs)
                         inner_consts.pop(p, None)
+                        inner_exprs.pop(p, None)
                 out += pre
-                out.append(("block", binds + self.expand(body, inner_consts, inner_code, depth + 1)))
+                out.append(("block", binds + self.expand(body, inner_consts, inner_code, depth + 1, inner_exprs)))
             elif k == "splice":
                 out += code[st[1]]
             elif k == "if":
@@ -141,25 +154,27 @@ class Expander:
                 except Undecidable:
                     if self.decide_if is None:
                         raise
-                    c = self.decide_if(st[1], consts)
+                    c = self.decide_if(self._subst(st[1], exprs), consts)
                 body = st[2] if c else st[3]
                 if body:
-                    out += self.expand(body, consts, code, depth + 1)
+                    out += self.expand(body, consts, code, depth + 1, exprs)
             elif k == "for":
                 try:
                     a, b = _const_eval(st[2], consts), _const_eval(st[3], consts)
                 except Undecidable:
                     if self.loop_bounds is None:
                         raise
-                    a, b = self.loop_bounds(st[2], st[3], consts)
+                    a, b = self.loop_bounds(self._subst(st[2], exprs), self._subst(st[3], exprs), consts)
                 for i in range(a, b):
                     c2 = dict(consts)
                     c2[st[1]] = i
-                    out.append(("block", [("raw", f"{st[1]} = {i}")] + self.expand(st[4], c2, code, depth + 1)))
+                    e2 = dict(exprs)
+                    e2.pop(st[1], None)
+                    out.append(("block", [("raw", f"{st[1]} = {i}")] + self.expand(st[4], c2, code, depth + 1, e2)))
             elif k == "block":
-                out.append(("block", self.expand(st[1], consts, code, depth + 1)))
+                out.append(("block", self.expand(st[1], consts, code, depth + 1, exprs)))
             elif k == "scope":
-                out.append(("scope", st[1], self.expand(st[2], consts, code, depth + 1)))
+                out.append(("scope", st[1], self.expand(st[2], consts, code, depth + 1, exprs)))
             else:
                 raise ValueError(st)
         return out
